@@ -579,6 +579,25 @@ def _extra_queries():
     # candidate 6: the declared index name of a row-wise concat is the one of a leading RangeIndex stand-in
     Pk = pd.DataFrame({"a": [3, 1, 2, 5], "k": [0, 1, 0, 2]})
     Ci = pd.DataFrame({"a": [1, 2]}, index=pd.Index([7, 8], name="id"))
+    # D114 (fixed): a reader that reads more than its `columns` operand says (read_csv: path column, at least one data column)
+    def csvp(dx_, sel, flag=True):
+        import os
+        import tempfile
+
+        d = os.path.join(tempfile.gettempdir(), "verif-c07-csvpath-%d" % os.getpid())
+        if not os.path.exists(d):
+            os.makedirs(d)
+            pd.DataFrame({"a": [1, 2, 3], "b": [4, 5, 6]}).to_csv(os.path.join(d, "x1.csv"), index=False)
+            pd.DataFrame({"a": [7, 8], "b": [9, 10]}).to_csv(os.path.join(d, "x2.csv"), index=False)
+            import atexit
+            import shutil
+
+            atexit.register(shutil.rmtree, d, ignore_errors=True)
+        return dx_.read_csv(os.path.join(d, "x*.csv"), include_path_column=flag)[sel]
+
+    qs.append(("read_csv_path_select_data", lambda dx_: csvp(dx_, ["a"])))
+    qs.append(("read_csv_path_select_path", lambda dx_: csvp(dx_, ["path"])))
+    qs.append(("read_csv_path_select_named", lambda dx_: csvp(dx_, ["b", "src"], "src")))
     qs.append(("concat_rangeindex_standin_name", lambda dx_: dx_.concat([dx_.from_pandas(Pk, npartitions=2).set_index("k"), dx_.from_pandas(Ci, npartitions=1)])))
     return qs
 
